@@ -72,10 +72,11 @@ func c11Type(k string) string { return "*S" + k[1:] }
 
 // Layout bits of the user files that hold the derive calls (C10).
 const (
-	LayTrailingComment = 1 // comment after the last declaration, no final newline
-	LayLineComments    = 2 // doc comments and end-of-line comments at the call sites
-	LayUnformatted     = 4 // not gofmt-formatted
-	LayBlockComment    = 8 // block comment inside the call's argument list
+	LayTrailingComment = 1  // comment after the last declaration, no final newline
+	LayLineComments    = 2  // doc comments and end-of-line comments at the call sites
+	LayUnformatted     = 4  // not gofmt-formatted
+	LayBlockComment    = 8  // block comment inside the call's argument list
+	LayLineDirective   = 16 // a //line directive before the package clause (as goyacc-style generators emit)
 )
 
 // concretiseC11 builds the real package of an exported scenario.
@@ -111,6 +112,10 @@ func buildPkg(id string, m mcScenario, variant, layout int) *Scenario {
 		b := per[c.F]
 		if b == nil {
 			b = &strings.Builder{}
+			if layout&LayLineDirective != 0 {
+				fmt.Fprintf(b, "//line grammar/lang%d.y:1\n", c.F)
+				sc.Files[fmt.Sprintf("p/grammar/lang%d.y", c.F)] = "%{\n// grammar source the //line directive of the Go file points at\n%}\n"
+			}
 			b.WriteString("package p\n")
 			per[c.F] = b
 		}
